@@ -331,8 +331,60 @@ impl Report {
         }
     }
 
+    /// What an engine that runs as a part of another engine's check (env `VERIF_EMBEDDED=1`) hands
+    /// back: counters, outcomes, extras and every violation.
+    fn embedded_json(&self, exhaustive: bool) -> Value {
+        let v = self.violations.lock().unwrap();
+        json!({
+            "evaluations": self.evaluations.load(Ordering::Relaxed),
+            "states": self.states.load(Ordering::Relaxed),
+            "transitions": self.transitions.load(Ordering::Relaxed),
+            "traces": self.traces.load(Ordering::Relaxed),
+            "nontrivial": self.nontrivial.load(Ordering::Relaxed),
+            "exhaustive": exhaustive && !self.capped.load(Ordering::Relaxed),
+            "outcomes": self.outcomes.lock().unwrap().clone(),
+            "extra": self.extra.lock().unwrap().clone(),
+            "technique": self.technique.lock().unwrap().clone(),
+            "violations": v.iter().map(|(k, d)| json!({"kind": k, "witness": d["witness"], "detail": d["detail"]})).collect::<Vec<_>>(),
+        })
+    }
+
+    /// Merge the result of an embedded engine run (see `run_embedded`).
+    pub fn merge_embedded(&self, tag: &str, j: &Value) {
+        self.eval(j["evaluations"].as_u64().unwrap_or(0));
+        self.state(j["states"].as_u64().unwrap_or(0));
+        self.transition(j["transitions"].as_u64().unwrap_or(0));
+        self.trace(j["traces"].as_u64().unwrap_or(0));
+        self.nontrivial(j["nontrivial"].as_u64().unwrap_or(0));
+        if j["exhaustive"].as_bool() == Some(false) {
+            self.capped.store(true, Ordering::Relaxed);
+        }
+        if let Some(o) = j["outcomes"].as_object() {
+            for (k, v) in o {
+                self.outcome(&format!("{tag}: {k}"), v.as_u64().unwrap_or(0));
+            }
+        }
+        if let Some(o) = j["extra"].as_object() {
+            for (k, v) in o {
+                self.set_extra(&format!("{tag}.{k}"), v.clone());
+            }
+        }
+        self.set_extra(&format!("{tag}.technique"), j["technique"].clone());
+        for v in j["violations"].as_array().cloned().unwrap_or_default() {
+            let mut w = v["witness"].clone();
+            if let Some(o) = w.as_object_mut() {
+                o.insert("engine".into(), json!(tag));
+            }
+            self.violation(v["kind"].as_str().unwrap_or("?"), w, v["detail"].clone());
+        }
+    }
+
     /// Write the evidence file and exit with the contract's exit code.
     pub fn finish(&self, exhaustive: bool, bound_completed: Value) -> ! {
+        if std::env::var("VERIF_EMBEDDED").ok().as_deref() == Some("1") {
+            println!("EMBEDDED-RESULT {}", self.embedded_json(exhaustive));
+            std::process::exit(0)
+        }
         self.flush_violations();
         let wall = self.elapsed_s();
         let outcomes = self.outcomes.lock().unwrap().clone();
@@ -394,6 +446,19 @@ impl Report {
             wall
         );
         std::process::exit(if nviol > 0 { 1 } else { 0 })
+    }
+}
+
+/// Run another engine of the workspace (a sibling binary) as a part of this check and return
+/// what it found. Its own evidence and violation files are not written; the caller merges.
+pub fn run_embedded(engine: &str, property: &str, tier: Tier) -> Value {
+    let exe = std::env::current_exe().unwrap_or_else(|e| machinery_error(&format!("current_exe: {e}")));
+    let other = exe.with_file_name(engine);
+    let out = std::process::Command::new(&other).arg(property).arg("--tier").arg(tier.as_str()).env("VERIF_EMBEDDED", "1").output().unwrap_or_else(|e| machinery_error(&format!("cannot start {}: {e}", other.display())));
+    let stdout = String::from_utf8_lossy(&out.stdout);
+    match stdout.lines().rev().find_map(|l| l.strip_prefix("EMBEDDED-RESULT ").and_then(|j| serde_json::from_str::<Value>(j).ok())) {
+        Some(j) => j,
+        None => machinery_error(&format!("embedded engine {engine} ended without a result ({:?}): {}", out.status, String::from_utf8_lossy(&out.stderr).chars().rev().take(400).collect::<String>().chars().rev().collect::<String>())),
     }
 }
 
